@@ -127,3 +127,32 @@ Definition check_case2 (c : case2) : bool := match model_out2 c with None => tru
 
 (* name validity on its own (util.is_valid_object_name) *)
 Definition check_name (c : list N * bool) : bool := Bool.eqb (valid_name (fst c)) (snd c).
+
+(* ---- the hypothesis about object removal, checked on real schedules ----
+   The model's step IObjRemove is atomic: the object stops being known AND handle_object_removed runs,
+   before anything else can happen to that name.  What this needs from QMI_Context.remove_rpc_object is that
+   the subscription clean-up of a removed object runs while its name is still reserved: no object with the
+   same name can be created between the release of the name and the clean-up of the previous incarnation
+   (otherwise the clean-up, which works by name, hits the NEW object).  The thread-level runs record, per
+   context, the events of the object map and of handle_object_removed; [lifecycle_ok] rejects a schedule in
+   which a name is reserved again while the clean-up of its previous incarnation is still outstanding. *)
+Inductive objev :=
+| EvMark (x : name)       (* remove_rpc_object: the name is marked "being removed" *)
+| EvCleanup (x : name)    (* SignalManager.handle_object_removed(x) *)
+| EvRelease (x : name)    (* the name is deleted from the object map *)
+| EvReserve (x : name).   (* make_rpc_object reserves the name *)
+
+(* marked: removal started, clean-up not yet run; dangling: released while the clean-up is outstanding *)
+Fixpoint lifecycle_run (marked dangling : list name) (evs : list objev) : bool :=
+  match evs with
+  | [] => true
+  | EvMark x :: r => lifecycle_run (sadd str_eqb x marked) dangling r
+  | EvCleanup x :: r => lifecycle_run (sdel str_eqb x marked) (sdel str_eqb x dangling) r
+  | EvRelease x :: r =>
+      if smem str_eqb x marked then lifecycle_run (sdel str_eqb x marked) (sadd str_eqb x dangling) r
+      else lifecycle_run marked dangling r
+  | EvReserve x :: r => if smem str_eqb x dangling then false else lifecycle_run marked dangling r
+  end.
+
+Definition lifecycle_ok (evs : list objev) : bool := lifecycle_run [] [] evs.
+
